@@ -1831,3 +1831,643 @@ async fn nft_group_rebroadcast_pays_the_fee() {
     assert_eq!(plain.to[0].amount, 5000 - fee, "control: a plain 5000-nolan output reappears as 5000 minus the fee");
     if !((nft.to[1].amount) == (5000 - fee)) { witness(format!("the 5000-nolan payload slip of the NFT group of block 2 reappears in block 13 with {} nolan although block 13 books a rebroadcast fee of {} nolan for it (total_fees_atr {} for two rebroadcasts; the plain 5000-nolan output of the same transaction reappears with {}): the fee is paid out to miners/routers without being taken from the owner, {} nolan are created", nft.to[1].amount, fee, fees_atr, plain.to[0].amount, fee)); }
 }
+
+/// C13 ("and the original becomes unspendable"): with a payout multiplier above 1 the input of the rebroadcast still names the
+/// expiring output (known finding: the input is given the paid-out amount, its ledger key is regenerated from it and matches nothing)
+/// — scenario of an independent audit
+#[tokio::test]
+#[serial_test::serial]
+async fn rebroadcast_with_a_treasury_payout_spends_the_expiring_output() {
+    #[allow(unused_imports)] use crate::core::util::crypto::generate_keys;
+    #[allow(unused_imports)] use ahash::AHashMap;
+    #[allow(unused_imports)] use crate::core::consensus::wallet::Wallet;
+    #[allow(unused_imports)] use crate::core::util::test::test_manager::test::TestManager;
+    #[allow(unused_imports)] use crate::core::defs::Currency;
+    #[allow(unused_imports)] use crate::core::consensus::transaction::Transaction;
+    #[allow(unused_imports)] use crate::core::consensus::transaction::TransactionType;
+    #[allow(unused_imports)] use crate::core::consensus::block::Block;
+    #[allow(unused_imports)] use crate::core::defs::SaitoPublicKey;
+    use crate::core::consensus::blockchain::{AddBlockResult, Blockchain};
+    use crate::core::util::configuration::{
+        BlockchainConfig, Configuration, ConsensusConfig, PeerConfig, Server,
+    };
+    use std::sync::Arc;
+    use tokio::sync::RwLock;
+
+    // a configuration with a short retention window (genesis_period = 10), so that the window
+    // wraps within a few blocks; everything else as in TestManager::default()
+    #[derive(Debug)]
+    struct Cfg {
+        consensus: ConsensusConfig,
+        blockchain: BlockchainConfig,
+        peers: Vec<PeerConfig>,
+    }
+    impl Configuration for Cfg {
+        fn get_server_configs(&self) -> Option<&Server> {
+            None
+        }
+        fn get_peer_configs(&self) -> &Vec<PeerConfig> {
+            &self.peers
+        }
+        fn get_blockchain_configs(&self) -> &BlockchainConfig {
+            &self.blockchain
+        }
+        fn get_block_fetch_url(&self) -> String {
+            "".to_string()
+        }
+        fn is_spv_mode(&self) -> bool {
+            false
+        }
+        fn is_browser(&self) -> bool {
+            false
+        }
+        fn replace(&mut self, _config: &dyn Configuration) {}
+        fn get_consensus_config(&self) -> Option<&ConsensusConfig> {
+            Some(&self.consensus)
+        }
+    }
+    // an honest block on the current tip: Block::create with the golden ticket handed over the
+    // way the mempool does (TestManager::create_block puts it among the normal transactions,
+    // which sets previous_block_unpaid wrongly as soon as blocks carry fees)
+    async fn mk_block(t: &mut TestManager, txs: Vec<Transaction>, with_gt: bool, ts: u64) -> Block {
+        let (public_key, private_key) = {
+            let w = t.wallet_lock.read().await;
+            (w.public_key, w.private_key)
+        };
+        let parent_hash = t.latest_block_hash;
+        let mut map: AHashMap<crate::core::defs::SaitoSignature, Transaction> =
+            Default::default();
+        for tx in txs {
+            map.insert(tx.signature, tx);
+        }
+        let mut gt_tx = None;
+        if with_gt {
+            let difficulty = {
+                let bc = t.blockchain_lock.read().await;
+                bc.get_block(&parent_hash).unwrap().difficulty
+            };
+            let gt = TestManager::create_golden_ticket(
+                t.wallet_lock.clone(),
+                parent_hash,
+                difficulty,
+            )
+            .await;
+            let mut gttx =
+                Wallet::create_golden_ticket_transaction(gt, &public_key, &private_key).await;
+            gttx.generate(&public_key, 0, 0);
+            gt_tx = Some(gttx);
+        }
+        let configs = t.config_lock.read().await;
+        let blockchain = t.blockchain_lock.read().await;
+        let mut block = Block::create(
+            &mut map,
+            parent_hash,
+            &blockchain,
+            ts,
+            &public_key,
+            &private_key,
+            gt_tx,
+            &*configs,
+            &t.storage,
+        )
+        .await
+        .unwrap();
+        block.generate().unwrap();
+        block.sign(&private_key);
+        block
+    }
+    // a signed payment from the node's wallet
+    async fn mk_tx(
+        t: &mut TestManager,
+        to: SaitoPublicKey,
+        amount: Currency,
+        fee: Currency,
+        gp: u64,
+    ) -> Transaction {
+        let latest = t.blockchain_lock.read().await.get_latest_block_id();
+        let mut w = t.wallet_lock.write().await;
+        let pk = w.public_key;
+        let sk = w.private_key;
+        let mut tx =
+            Transaction::create(&mut w, to, amount, fee, false, None, latest, gp).unwrap();
+        tx.sign(&sk);
+        tx.generate(&pk, 0, 0);
+        tx
+    }
+
+    let gp: u64 = 10;
+    let mut t = TestManager::default();
+    t.config_lock = Arc::new(RwLock::new(Cfg {
+        consensus: ConsensusConfig {
+            genesis_period: gp,
+            heartbeat_interval: 100,
+            prune_after_blocks: 8,
+            max_staker_recursions: 3,
+            default_social_stake: 0,
+            default_social_stake_period: 60,
+        },
+        blockchain: BlockchainConfig::default(),
+        peers: vec![],
+    }));
+    {
+        let mut bc = t.blockchain_lock.write().await;
+        *bc = Blockchain::new(t.wallet_lock.clone(), gp, 0, 60);
+    }
+    // block 1: one issuance slip of 10_000_000 for the node's wallet
+    t.initialize_with_timestamp(1, 10_000_000, 1_000_000).await;
+    let other_pk = generate_keys().0;
+
+    // blocks 2..=13: each pays 5000 nolan to `other_pk` (never spent) with a fee of 6000; every
+    // second block carries a golden ticket, which funds the treasury
+    for i in 2..=13u64 {
+        let ts = t.get_latest_block().await.timestamp + 120_000;
+        let tx = mk_tx(&mut t, other_pk, 5000, 6000, gp).await;
+        let block = mk_block(&mut t, vec![tx], i % 2 == 0, ts).await;
+        if i == 13 {
+            // control: no treasury payout yet (multiplier 1): the rebroadcast transaction that
+            // generate_consensus_values built names the real output of block 2 and validates
+            let atr: Vec<&Transaction> = block
+                .transactions
+                .iter()
+                .filter(|tx| tx.transaction_type == TransactionType::ATR)
+                .collect();
+            assert_eq!(atr.len(), 1);
+            assert_eq!(atr[0].from[0].block_id, 2);
+            assert_eq!(atr[0].from[0].amount, 5000);
+            let bc = t.blockchain_lock.read().await;
+            assert_eq!(bc.utxoset.get(&atr[0].from[0].utxoset_key), Some(&true));
+            assert!(atr[0].validate(&bc.utxoset, &bc, true), "control: rebroadcast without payout validates");
+        }
+        let res = t.add_block(block).await;
+        assert!(matches!(res, AddBlockResult::BlockAddedSuccessfully(..)), "setup: block {} is accepted", i);
+    }
+
+    // the output of block 3 that is due now
+    let (treasury, avg_rebroadcast, due) = {
+        let bc = t.blockchain_lock.read().await;
+        let tip = bc.get_latest_block().unwrap();
+        let h3 = bc.blockring.get_longest_chain_block_hash_at_block_id(3).unwrap();
+        let mut b3 = Block::deserialize_from_net(
+            &t.storage
+                .read(&t.storage.generate_block_filepath(bc.get_block(&h3).unwrap()))
+                .await
+                .unwrap(),
+        )
+        .unwrap();
+        b3.generate().unwrap();
+        let due = b3
+            .transactions
+            .iter()
+            .flat_map(|tx| tx.to.iter())
+            .find(|s| s.public_key == other_pk)
+            .unwrap()
+            .clone();
+        assert_eq!(due.amount, 5000);
+        assert_eq!(bc.utxoset.get(&due.utxoset_key), Some(&true), "setup: the output of block 3 is unspent");
+        (tip.treasury, tip.avg_nolan_rebroadcast_per_block, due)
+    };
+    let multiplier = 1 + treasury / (gp * avg_rebroadcast);
+    assert!(multiplier >= 2, "setup: the treasury pays out");
+
+    // the rebroadcast transaction generate_consensus_values builds for it (taken from the block
+    // Block::create assembles; the input slip is the same on the creating and on the validating side)
+    let ts = t.get_latest_block().await.timestamp + 120_000;
+    let tx = mk_tx(&mut t, other_pk, 5000, 6000, gp).await;
+    let block14 = mk_block(&mut t, vec![tx], true, ts).await;
+    let atr: Vec<&Transaction> = block14
+        .transactions
+        .iter()
+        .filter(|tx| tx.transaction_type == TransactionType::ATR)
+        .collect();
+    assert_eq!(atr.len(), 1, "setup: block 14 rebroadcasts the one unspent output of block 3");
+    let input = &atr[0].from[0];
+    assert_eq!(
+        (input.public_key, input.block_id, input.tx_ordinal, input.slip_index),
+        (due.public_key, due.block_id, due.tx_ordinal, due.slip_index),
+        "setup: the rebroadcast is meant to spend the output of block 3"
+    );
+    let bc = t.blockchain_lock.read().await;
+    let valid = atr[0].validate(&bc.utxoset, &bc, true);
+    if !(valid && input.utxoset_key == due.utxoset_key) { witness(format!("the rebroadcast of the 5000-nolan output (block {}, tx {}, slip {}) names an input of {} nolan (5000 x payout multiplier {}): its utxoset key is not the key of the output (in utxoset: {}), so Transaction::validate refuses the rebroadcast (validates: {}) and with it every block that carries it, and applying it would leave the original 5000-nolan output marked unspent", due.block_id, due.tx_ordinal, due.slip_index, input.amount, multiplier, bc.utxoset.contains_key(&input.utxoset_key), valid)); }
+}
+
+/// C13: a block whose rebroadcast carries a treasury payout is built and validated with the same numbers (known finding: Block::create
+/// computes the consensus values before it assigns the treasury, the 5 % cap then differs between creator and validator) — scenario
+/// of an independent audit
+#[tokio::test]
+#[serial_test::serial]
+async fn block_with_a_treasury_payout_passes_its_creators_own_validation() {
+    #[allow(unused_imports)] use crate::core::util::crypto::generate_keys;
+    #[allow(unused_imports)] use ahash::AHashMap;
+    #[allow(unused_imports)] use crate::core::consensus::wallet::Wallet;
+    #[allow(unused_imports)] use crate::core::util::test::test_manager::test::TestManager;
+    #[allow(unused_imports)] use crate::core::defs::Currency;
+    #[allow(unused_imports)] use crate::core::consensus::transaction::Transaction;
+    #[allow(unused_imports)] use crate::core::consensus::transaction::TransactionType;
+    #[allow(unused_imports)] use crate::core::consensus::block::Block;
+    #[allow(unused_imports)] use crate::core::defs::SaitoPublicKey;
+    use crate::core::consensus::blockchain::{AddBlockResult, Blockchain};
+    use crate::core::util::configuration::{
+        BlockchainConfig, Configuration, ConsensusConfig, PeerConfig, Server,
+    };
+    use std::sync::Arc;
+    use tokio::sync::RwLock;
+
+    // a configuration with a short retention window (genesis_period = 10), so that the window
+    // wraps within a few blocks; everything else as in TestManager::default()
+    #[derive(Debug)]
+    struct Cfg {
+        consensus: ConsensusConfig,
+        blockchain: BlockchainConfig,
+        peers: Vec<PeerConfig>,
+    }
+    impl Configuration for Cfg {
+        fn get_server_configs(&self) -> Option<&Server> {
+            None
+        }
+        fn get_peer_configs(&self) -> &Vec<PeerConfig> {
+            &self.peers
+        }
+        fn get_blockchain_configs(&self) -> &BlockchainConfig {
+            &self.blockchain
+        }
+        fn get_block_fetch_url(&self) -> String {
+            "".to_string()
+        }
+        fn is_spv_mode(&self) -> bool {
+            false
+        }
+        fn is_browser(&self) -> bool {
+            false
+        }
+        fn replace(&mut self, _config: &dyn Configuration) {}
+        fn get_consensus_config(&self) -> Option<&ConsensusConfig> {
+            Some(&self.consensus)
+        }
+    }
+    // an honest block on the current tip: Block::create with the golden ticket handed over the
+    // way the mempool does (TestManager::create_block puts it among the normal transactions,
+    // which sets previous_block_unpaid wrongly as soon as blocks carry fees)
+    async fn mk_block(t: &mut TestManager, txs: Vec<Transaction>, with_gt: bool, ts: u64) -> Block {
+        let (public_key, private_key) = {
+            let w = t.wallet_lock.read().await;
+            (w.public_key, w.private_key)
+        };
+        let parent_hash = t.latest_block_hash;
+        let mut map: AHashMap<crate::core::defs::SaitoSignature, Transaction> =
+            Default::default();
+        for tx in txs {
+            map.insert(tx.signature, tx);
+        }
+        let mut gt_tx = None;
+        if with_gt {
+            let difficulty = {
+                let bc = t.blockchain_lock.read().await;
+                bc.get_block(&parent_hash).unwrap().difficulty
+            };
+            let gt = TestManager::create_golden_ticket(
+                t.wallet_lock.clone(),
+                parent_hash,
+                difficulty,
+            )
+            .await;
+            let mut gttx =
+                Wallet::create_golden_ticket_transaction(gt, &public_key, &private_key).await;
+            gttx.generate(&public_key, 0, 0);
+            gt_tx = Some(gttx);
+        }
+        let configs = t.config_lock.read().await;
+        let blockchain = t.blockchain_lock.read().await;
+        let mut block = Block::create(
+            &mut map,
+            parent_hash,
+            &blockchain,
+            ts,
+            &public_key,
+            &private_key,
+            gt_tx,
+            &*configs,
+            &t.storage,
+        )
+        .await
+        .unwrap();
+        block.generate().unwrap();
+        block.sign(&private_key);
+        block
+    }
+    // a signed payment from the node's wallet
+    async fn mk_tx(
+        t: &mut TestManager,
+        to: SaitoPublicKey,
+        amount: Currency,
+        fee: Currency,
+        gp: u64,
+    ) -> Transaction {
+        let latest = t.blockchain_lock.read().await.get_latest_block_id();
+        let mut w = t.wallet_lock.write().await;
+        let pk = w.public_key;
+        let sk = w.private_key;
+        let mut tx =
+            Transaction::create(&mut w, to, amount, fee, false, None, latest, gp).unwrap();
+        tx.sign(&sk);
+        tx.generate(&pk, 0, 0);
+        tx
+    }
+
+    let gp: u64 = 10;
+    let mut t = TestManager::default();
+    t.config_lock = Arc::new(RwLock::new(Cfg {
+        consensus: ConsensusConfig {
+            genesis_period: gp,
+            heartbeat_interval: 100,
+            prune_after_blocks: 8,
+            max_staker_recursions: 3,
+            default_social_stake: 0,
+            default_social_stake_period: 60,
+        },
+        blockchain: BlockchainConfig::default(),
+        peers: vec![],
+    }));
+    {
+        let mut bc = t.blockchain_lock.write().await;
+        *bc = Blockchain::new(t.wallet_lock.clone(), gp, 0, 60);
+    }
+    // block 1: one issuance slip of 10_000_000 for the node's wallet
+    t.initialize_with_timestamp(1, 10_000_000, 1_000_000).await;
+    let other_pk = generate_keys().0;
+
+    // blocks 2..=13: each pays 5000 nolan to `other_pk` (never spent) with a fee of 6000; every
+    // second block carries a golden ticket, so half of every unpaid block's fees goes to the
+    // treasury. block 13 = 2 + genesis_period + 1 is the first block that has to rebroadcast.
+    for i in 2..=13u64 {
+        let ts = t.get_latest_block().await.timestamp + 120_000;
+        let tx = mk_tx(&mut t, other_pk, 5000, 6000, gp).await;
+        let block = mk_block(&mut t, vec![tx], i % 2 == 0, ts).await;
+        if i == 13 {
+            // control: without a treasury payout (no rebroadcast average yet) the rebroadcast works
+            let atr: Vec<&Transaction> = block
+                .transactions
+                .iter()
+                .filter(|tx| tx.transaction_type == TransactionType::ATR)
+                .collect();
+            assert_eq!(atr.len(), 1, "setup: block 13 rebroadcasts the one unspent output of block 2");
+            assert_eq!(atr[0].from[0].block_id, 2);
+            assert_eq!(atr[0].to[0].public_key, other_pk);
+            assert_eq!(block.total_payout_atr, 0);
+            assert_eq!(atr[0].to[0].amount, 5000 - block.total_fees_atr);
+        }
+        let res = t.add_block(block).await;
+        assert!(
+            matches!(res, AddBlockResult::BlockAddedSuccessfully(..)),
+            "setup: block {} is accepted",
+            i
+        );
+    }
+
+    // state before block 14: the output of block 3 (5000 nolan for other_pk) is unspent and due
+    let (treasury, avg_rebroadcast, due_key) = {
+        let bc = t.blockchain_lock.read().await;
+        let tip = bc.get_latest_block().unwrap();
+        assert_eq!(tip.id, 13);
+        let h3 = bc.blockring.get_longest_chain_block_hash_at_block_id(3).unwrap();
+        let b3 = Block::deserialize_from_net(
+            &t.storage
+                .read(&t.storage.generate_block_filepath(bc.get_block(&h3).unwrap()))
+                .await
+                .unwrap(),
+        )
+        .map(|mut b| {
+            b.generate().unwrap();
+            b
+        })
+        .unwrap();
+        let due = b3
+            .transactions
+            .iter()
+            .flat_map(|tx| tx.to.iter())
+            .find(|s| s.public_key == other_pk)
+            .unwrap()
+            .clone();
+        assert_eq!(due.amount, 5000);
+        assert_eq!(bc.utxoset.get(&due.utxoset_key), Some(&true), "setup: the output of block 3 is unspent");
+        (tip.treasury, tip.avg_nolan_rebroadcast_per_block, due.utxoset_key)
+    };
+    // the treasury pays out: multiplier = 1 + treasury / (genesis_period * avg rebroadcast) >= 2
+    assert!(avg_rebroadcast > 0 && treasury / (gp * avg_rebroadcast) >= 1,
+        "setup: treasury {} covers genesis_period {} x avg rebroadcast {}", treasury, gp, avg_rebroadcast);
+
+    // block 14, built by the honest node itself
+    let ts = t.get_latest_block().await.timestamp + 120_000;
+    let tx = mk_tx(&mut t, other_pk, 5000, 6000, gp).await;
+    let block14 = mk_block(&mut t, vec![tx], true, ts).await;
+    let atr: Vec<&Transaction> = block14
+        .transactions
+        .iter()
+        .filter(|tx| tx.transaction_type == TransactionType::ATR)
+        .collect();
+    assert_eq!(atr.len(), 1, "setup: block 14 rebroadcasts the one unspent output of block 3");
+    assert_eq!(atr[0].from[0].block_id, 3);
+    let header_treasury = block14.treasury;
+    let res = t.add_block(block14).await;
+    let still_unspent = {
+        let bc = t.blockchain_lock.read().await;
+        bc.utxoset.get(&due_key) == Some(&true) && bc.get_latest_block_id() == 13
+    };
+    if !(matches!(res, AddBlockResult::BlockAddedSuccessfully(..))) { witness(format!("block 14 built by Block::create on this node was refused by this node's own Block::validate: the 5000-nolan output of block 3 is due for rebroadcast with a treasury payout (treasury {} >= genesis_period {} x avg rebroadcast {}), the creator capped the payout against its own still-zero treasury field while validate() caps against the header value {}, so the recomputed rebroadcasts differ; the expiring output is neither rebroadcast nor collected (still in the utxoset and tip still 13: {}) and no block can extend the chain", treasury, gp, avg_rebroadcast, header_treasury, still_unspent)); }
+}
+
+/// C13/C02: when the 5 % cap on the treasury payout fires, what the rebroadcast outputs receive is what the treasury is debited
+/// (known finding: the capped branch multiplies the already paid-out input amount and books nothing) — scenario of an independent audit
+#[tokio::test]
+#[serial_test::serial]
+async fn capped_treasury_payout_is_what_the_outputs_receive() {
+    #[allow(unused_imports)] use crate::core::util::crypto::generate_keys;
+    #[allow(unused_imports)] use ahash::AHashMap;
+    #[allow(unused_imports)] use crate::core::consensus::wallet::Wallet;
+    #[allow(unused_imports)] use crate::core::util::test::test_manager::test::TestManager;
+    #[allow(unused_imports)] use crate::core::defs::Currency;
+    #[allow(unused_imports)] use crate::core::consensus::transaction::Transaction;
+    #[allow(unused_imports)] use crate::core::consensus::block::Block;
+    #[allow(unused_imports)] use crate::core::defs::SaitoPublicKey;
+    #[allow(unused_imports)] use crate::core::util::crypto::hash;
+    use crate::core::consensus::blockchain::{AddBlockResult, Blockchain};
+    use crate::core::util::configuration::{
+        BlockchainConfig, Configuration, ConsensusConfig, PeerConfig, Server,
+    };
+    use std::sync::Arc;
+    use tokio::sync::RwLock;
+
+    // a configuration with a short retention window (genesis_period = 10), so that the window
+    // wraps within a few blocks; everything else as in TestManager::default()
+    #[derive(Debug)]
+    struct Cfg {
+        consensus: ConsensusConfig,
+        blockchain: BlockchainConfig,
+        peers: Vec<PeerConfig>,
+    }
+    impl Configuration for Cfg {
+        fn get_server_configs(&self) -> Option<&Server> {
+            None
+        }
+        fn get_peer_configs(&self) -> &Vec<PeerConfig> {
+            &self.peers
+        }
+        fn get_blockchain_configs(&self) -> &BlockchainConfig {
+            &self.blockchain
+        }
+        fn get_block_fetch_url(&self) -> String {
+            "".to_string()
+        }
+        fn is_spv_mode(&self) -> bool {
+            false
+        }
+        fn is_browser(&self) -> bool {
+            false
+        }
+        fn replace(&mut self, _config: &dyn Configuration) {}
+        fn get_consensus_config(&self) -> Option<&ConsensusConfig> {
+            Some(&self.consensus)
+        }
+    }
+    // an honest block on the current tip: Block::create with the golden ticket handed over the
+    // way the mempool does (TestManager::create_block puts it among the normal transactions,
+    // which sets previous_block_unpaid wrongly as soon as blocks carry fees)
+    async fn mk_block(t: &mut TestManager, txs: Vec<Transaction>, with_gt: bool, ts: u64) -> Block {
+        let (public_key, private_key) = {
+            let w = t.wallet_lock.read().await;
+            (w.public_key, w.private_key)
+        };
+        let parent_hash = t.latest_block_hash;
+        let mut map: AHashMap<crate::core::defs::SaitoSignature, Transaction> =
+            Default::default();
+        for tx in txs {
+            map.insert(tx.signature, tx);
+        }
+        let mut gt_tx = None;
+        if with_gt {
+            let difficulty = {
+                let bc = t.blockchain_lock.read().await;
+                bc.get_block(&parent_hash).unwrap().difficulty
+            };
+            let gt = TestManager::create_golden_ticket(
+                t.wallet_lock.clone(),
+                parent_hash,
+                difficulty,
+            )
+            .await;
+            let mut gttx =
+                Wallet::create_golden_ticket_transaction(gt, &public_key, &private_key).await;
+            gttx.generate(&public_key, 0, 0);
+            gt_tx = Some(gttx);
+        }
+        let configs = t.config_lock.read().await;
+        let blockchain = t.blockchain_lock.read().await;
+        let mut block = Block::create(
+            &mut map,
+            parent_hash,
+            &blockchain,
+            ts,
+            &public_key,
+            &private_key,
+            gt_tx,
+            &*configs,
+            &t.storage,
+        )
+        .await
+        .unwrap();
+        block.generate().unwrap();
+        block.sign(&private_key);
+        block
+    }
+    // a signed payment from the node's wallet
+    async fn mk_tx(
+        t: &mut TestManager,
+        to: SaitoPublicKey,
+        amount: Currency,
+        fee: Currency,
+        gp: u64,
+    ) -> Transaction {
+        let latest = t.blockchain_lock.read().await.get_latest_block_id();
+        let mut w = t.wallet_lock.write().await;
+        let pk = w.public_key;
+        let sk = w.private_key;
+        let mut tx =
+            Transaction::create(&mut w, to, amount, fee, false, None, latest, gp).unwrap();
+        tx.sign(&sk);
+        tx.generate(&pk, 0, 0);
+        tx
+    }
+
+    let gp: u64 = 10;
+    let mut t = TestManager::default();
+    t.config_lock = Arc::new(RwLock::new(Cfg {
+        consensus: ConsensusConfig {
+            genesis_period: gp,
+            heartbeat_interval: 100,
+            prune_after_blocks: 8,
+            max_staker_recursions: 3,
+            default_social_stake: 0,
+            default_social_stake_period: 60,
+        },
+        blockchain: BlockchainConfig::default(),
+        peers: vec![],
+    }));
+    {
+        let mut bc = t.blockchain_lock.write().await;
+        *bc = Blockchain::new(t.wallet_lock.clone(), gp, 0, 60);
+    }
+    // block 1: one issuance slip of 10_000_000 for the node's wallet
+    t.initialize_with_timestamp(1, 10_000_000, 1_000_000).await;
+    let other_pk = generate_keys().0;
+
+    // blocks 2..=13: each pays 5000 nolan to `other_pk` (never spent) with a fee of 6000; every
+    // second block carries a golden ticket, which funds the treasury
+    for i in 2..=13u64 {
+        let ts = t.get_latest_block().await.timestamp + 120_000;
+        let tx = mk_tx(&mut t, other_pk, 5000, 6000, gp).await;
+        let block = mk_block(&mut t, vec![tx], i % 2 == 0, ts).await;
+        if i == 13 {
+            // control: one rebroadcast without treasury payout: the books balance
+            // (new value + fee booked == old value + treasury debit)
+            let bc = t.blockchain_lock.read().await;
+            let configs = t.config_lock.read().await;
+            let cv = block.generate_consensus_values(&bc, &t.storage, &*configs).await;
+            assert_eq!(cv.rebroadcasts.len(), 1);
+            assert_eq!(
+                cv.rebroadcasts[0].to[0].amount + cv.total_fees_atr,
+                5000 + cv.total_payout_atr,
+                "control: the rebroadcast of block 13 balances"
+            );
+        }
+        let res = t.add_block(block).await;
+        assert!(matches!(res, AddBlockResult::BlockAddedSuccessfully(..)), "setup: block {} is accepted", i);
+    }
+    let (treasury, avg_rebroadcast) = {
+        let bc = t.blockchain_lock.read().await;
+        let tip = bc.get_latest_block().unwrap();
+        (tip.treasury, tip.avg_nolan_rebroadcast_per_block)
+    };
+    let multiplier = 1 + treasury / (gp * avg_rebroadcast);
+    assert!(multiplier >= 2, "setup: the treasury pays out");
+
+    // block 14 has to rebroadcast the 5000-nolan output of block 3. the consensus values are
+    // computed the way Block::validate does: on the block with its header treasury in place
+    let ts = t.get_latest_block().await.timestamp + 120_000;
+    let tx = mk_tx(&mut t, other_pk, 5000, 6000, gp).await;
+    let block14 = mk_block(&mut t, vec![tx], true, ts).await;
+    assert!(block14.treasury > 0);
+    let bc = t.blockchain_lock.read().await;
+    let configs = t.config_lock.read().await;
+    let cv = block14.generate_consensus_values(&bc, &t.storage, &*configs).await;
+    assert_eq!(cv.rebroadcasts.len(), 1, "setup: one output is due");
+    let rebroadcast = &cv.rebroadcasts[0];
+    assert_eq!(rebroadcast.from[0].block_id, 3);
+    assert_eq!(rebroadcast.to[0].public_key, other_pk);
+    let cap = (block14.treasury as f64 * 0.05) as u64;
+    assert!(5000 * (multiplier - 1) > cap, "setup: the uncapped payout {} exceeds the cap {}", 5000 * (multiplier - 1), cap);
+    // the hash commitment is still the one taken before the amounts were adjusted
+    let mut vbytes = vec![0u8; 32];
+    vbytes.extend(&rebroadcast.serialize_for_signature());
+    let hash_matches_adjusted = crate::core::util::crypto::hash(&vbytes) == cv.rebroadcast_hash;
+    if !((rebroadcast.to[0].amount + cv.total_fees_atr) == (5000 + cv.total_payout_atr)) { witness(format!("the 5000-nolan output of block 3 reappears in block 14 with {} nolan (uncapped payout multiplier {} applied, cap is 5% of treasury {} = {}), while the block debits the treasury by total_payout_atr = {} and books total_fees_atr = {}: the owner gains {} nolan nobody pays for (rebroadcast_hash still commits to the unadjusted transaction: {})", rebroadcast.to[0].amount, multiplier, block14.treasury, cap, cv.total_payout_atr, cv.total_fees_atr, rebroadcast.to[0].amount + cv.total_fees_atr - 5000 - cv.total_payout_atr, !hash_matches_adjusted)); }
+}
